@@ -120,6 +120,17 @@ def main(argv=None) -> int:
     except ModuleNotFoundError as e:
         print(f"INFRA: no ops module for {prop}: {e}")
         return 2
+    # last resort against a hang (library code that no longer terminates outside `common.call`, a dead
+    # driver): an infrastructure failure (exit 2, no VIOLATION line) instead of running forever
+    import threading
+    limit = float(os.environ.get("VERIF_RUN_LIMIT_S", "2400" if args.tier == "quick" else "21600"))
+
+    def _give_up():
+        print(f"INFRA: run exceeded {limit:.0f} s (VERIF_RUN_LIMIT_S); no verdict", flush=True)
+        os._exit(2)
+    _t = threading.Timer(limit, _give_up)
+    _t.daemon = True
+    _t.start()
     try:
         binfo = build.ensure_built(prop, args.tier)
     except (build.InfraError, Exception) as e:  # noqa: BLE001
